@@ -25,8 +25,12 @@
     G a <key> <def> <deli>    GetStringArray      → list
     G s <key> <def> <deli>    GetIntSet           → ints separated by ',' or "[]"
     G S <key> <def> <deli>    GetIntSet, unchanged code (inverted err test)
+    G h <key> <def> <deli>    the trimmed tokens GetStringHashSet / GetStringHashCodeSet hash → list
     K                         GetKeys             → list (map order of the model)
+    OX <name> <id> <d>        a callback registered (name, id) during the last round; it got d ∈ {0,1} calls in it
   Stateless ops:
+    F <pairs>                 canonical full rendering of the pairs (renderFileFull) → <text>
+    CD <trunc|atomic|nosync> <old> <new>  contents the configuration path can hold after a power loss → list
     P <text>                  parse + Read        → ok <pairs> | malformed | expansion
     W <fixC> <text> <pairs>   DefaultFileParser.Write → ok <body lines> <appended lines> | malformed
     S <fixC> <pre> <suf> <excl list> <text> <pairs>   SetValues → same answer as W
@@ -35,7 +39,9 @@
 import Golib.Conf.Getters
 import Golib.Conf.Reload
 import Golib.Conf.FS
-import Golib.Conf.Observers
+import Golib.Conf.ObsHist
+import Golib.Conf.FSDur
+import Golib.Conf.FullGrammar
 import Driver.Common
 
 open Conf Drv
@@ -116,6 +122,8 @@ def getter (st : DrvSt) (args : List String) : String :=
     | some k, some d, some deli => encInts (getIntSet m env k d deli) | _, _, _ => "bad-op"
   | ["S", k, d, deli] => match decStr k, decStr d, decStr deli with
     | some k, some d, some deli => encInts (getIntSetD38 m env k d deli) | _, _, _ => "bad-op"
+  | ["h", k, d, deli] => match decStr k, decStr d, decStr deli with
+    | some k, some d, some deli => encList (hashTokens m env k d deli) | _, _, _ => "bad-op"
   | _ => "bad-op"
 
 def answer (st : DrvSt) (line : String) : DrvSt × String :=
@@ -123,6 +131,23 @@ def answer (st : DrvSt) (line : String) : DrvSt × String :=
   | ["N"] => ({ st with cfg := Cfg.init, file := none, obs := Obs.empty }, "ok")
   | ["O", name, id] => match decStr name, parseNat id with
     | some name, some id => ({ st with obs := st.obs.add name id }, "ok")
+    | _, _ => (st, "bad-op")
+  | ["OX", name, id, d] => match decStr name, parseNat id, parseNat d with
+    | some name, some id, some d =>
+      -- a callback registered (name, id) during the last round and the new target got d ∈ {0,1} calls in it
+      if d ≤ 1 then
+        let o1 := st.obs.add name id
+        ({ st with obs := if d == 1 then o1.bumpOne id else o1 }, "ok")
+      else (st, "impossible")
+    | _, _, _ => (st, "bad-op")
+  | ["F", pairs] => match decPairs pairs with
+    | some pairs => (st, encStr (renderFileFull pairs))
+    | none => (st, "bad-op")
+  | ["CD", which, old, new] => match decStr old, decStr new with
+    | some old, some new =>
+      let seq := if which == "trunc" then truncSeq else if which == "nosync" then noSyncSeq else atomicSeq
+      let outs := (dstates new seq (DFS.init old)).flatMap outcomes
+      (st, encList outs.eraseDups)
     | _, _ => (st, "bad-op")
   | ["OC"] =>
     (st, if st.obs.counts.isEmpty then "[]" else ",".intercalate (st.obs.counts.map (fun p => s!"{p.1}:{p.2}")))
